@@ -201,7 +201,7 @@ func (c *Collection) set(key string, exp Exp, opts *sgbucket.UpsertOptions, val 
 	}
 	return c.withNewCas(func(txn *sql.Tx, newCas CAS) (*event, error) {
 		exp = absoluteExpiry(exp)
-		xattrs, revSeqNo, err := c._set(txn, key, exp, opts, val, isJSON, newCas)
+		xattrs, revSeqNo, storedExp, err := c._set(txn, key, exp, opts, val, isJSON, newCas)
 		if err != nil {
 			return nil, err
 		}
@@ -209,7 +209,7 @@ func (c *Collection) set(key string, exp Exp, opts *sgbucket.UpsertOptions, val 
 			key:      key,
 			value:    val,
 			cas:      newCas,
-			exp:      exp,
+			exp:      storedExp,
 			isJSON:   isJSON,
 			xattrs:   xattrs,
 			revSeqNo: revSeqNo,
@@ -218,7 +218,7 @@ func (c *Collection) set(key string, exp Exp, opts *sgbucket.UpsertOptions, val 
 }
 
 // Core code of Set/SetRaw/Incr. Must be in a transaction when called.
-func (c *Collection) _set(txn *sql.Tx, key string, exp Exp, opts *sgbucket.UpsertOptions, val []byte, isJSON bool, newCas CAS) (xattrs []byte, revSeqNo uint64, err error) {
+func (c *Collection) _set(txn *sql.Tx, key string, exp Exp, opts *sgbucket.UpsertOptions, val []byte, isJSON bool, newCas CAS) (xattrs []byte, revSeqNo uint64, storedExp Exp, err error) {
 	exp = absoluteExpiry(exp)
 
 	// First get the existing xattrs and exp, and check whether the doc is a tombstone:
@@ -251,6 +251,7 @@ func (c *Collection) _set(txn *sql.Tx, key string, exp Exp, opts *sgbucket.Upser
 				VALUES (?1,?2,?3,?4,?5,?6,?7,?8)`
 	}
 	_, err = txn.Exec(stmt, c.id, key, val, xattrs, newCas, exp, isJSON, revSeqNo)
+	storedExp = exp
 	return
 }
 
@@ -520,7 +521,7 @@ func (c *Collection) Incr(key string, amt, deflt uint64, exp Exp) (result uint64
 
 		raw := []byte(strconv.FormatUint(result, 10))
 
-		xattrs, revSeqNo, err := c._set(txn, key, exp, nil, raw, true, newCas)
+		xattrs, revSeqNo, _, err := c._set(txn, key, exp, nil, raw, true, newCas)
 		if err != nil {
 			return nil, err
 		}
